@@ -50,7 +50,7 @@ func (m *c25model) drop(k int) {
 // add / remove / set-minimum / pop-minimum over up to `ids` IDs with symbolic 64-bit expiries; after every operation
 // Len, Has (every ID) and PeekMin are compared with the reference set.
 func VerifC25ExpiryHeap() {
-	maxOps := verifParam("maxOps", 5, 7)
+	maxOps := verifParam("maxOps", 5, 6)
 	nids := verifParam("ids", 3, 4)
 	eh := New[*c25Item](2)
 	var m c25model
